@@ -2,6 +2,7 @@ package props
 
 import (
 	"fmt"
+	"strings"
 
 	"verifengine/core"
 	"verifengine/x86ref"
@@ -404,6 +405,7 @@ func memLabelScenario(name string) *core.Scenario {
 			w := []int{8, 16, 32}[c.Pick("w", 3)]
 			withKw := c.Bool("sizekw")
 			org := labOrgs[c.Pick("org", len(labOrgs))]
+			labName := []string{"lab", "DRIVE", "TRACK", "CRTMODE", "MMAP", "XMMSAVE", "st0p"}[c.Pick("label_name", 7)] // names that begin like numbered register families
 			hasReg := f.name == "load" || f.name == "load_acc" || f.name == "store" || f.name == "sub_reg" || f.name == "xor_store" || f.name == "or_load" || f.name == "cmp_load"
 			if !withKw && !hasReg {
 				return nil // the operand size would be unspecified
@@ -412,13 +414,13 @@ func memLabelScenario(name string) *core.Scenario {
 			if withKw {
 				kw = sizeKw(w) + " "
 			}
-			stmt := f.text(w, kw)
+			stmt := strings.ReplaceAll(f.text(w, kw), "[lab]", "["+labName+"]")
 			head := bitsHeader(mode) + fmt.Sprintf("\tORG 0x%x\n", org)
-			src := head + "\t" + stmt + "\nlab:\n\tDB 0x5a\n"
-			base := head + "lab:\n\tDB 0x5a\n"
+			src := head + "\t" + stmt + "\n" + labName + ":\n\tDB 0x5a\n"
+			base := head + labName + ":\n\tDB 0x5a\n"
 			ft := feat("form", "m_label", "mn", f.name, "w", fmt.Sprint(w), "sizekw", fmt.Sprint(withKw), "org", fmt.Sprintf("0x%x", org))
 			ft["mode"] = fmt.Sprint(mode)
-			return &core.Case{Key: fmt.Sprintf("BITS %d|ORG 0x%x|%s ; lab:", mode, org, stmt), Feat: ft, Srcs: []string{src, base},
+			return &core.Case{Key: fmt.Sprintf("BITS %d|ORG 0x%x|%s ; %s:", mode, org, stmt, labName), Feat: ft, Srcs: []string{src, base},
 				Judge: func(rs []*core.Result) core.Verdict {
 					r, b := rs[0], rs[1]
 					v := core.Verdict{}
